@@ -23,7 +23,8 @@ ASSUMPTIONS = [
 ]
 BUDGET = {"quick": 85, "thorough": 900}
 FLOORS = {"reversals": {"quick": 250, "thorough": 2500}, "determinants": {"quick": 120, "thorough": 1200}, "order_fits": {"quick": 25, "thorough": 250},
-          "hastings_terms": {"quick": 120, "thorough": 1200}, "nan_region_steps": 8, "retried_then_succeeded": {"quick": 8, "thorough": 40}, "chained_reversals": {"quick": 20, "thorough": 200}, "targets": 6}
+          "hastings_terms": {"quick": 120, "thorough": 1200}, "nan_region_steps": 8, "retried_then_succeeded": {"quick": 8, "thorough": 40}, "chained_reversals": {"quick": 20, "thorough": 200}, "same_start_after_target_change": {"quick": 20, "thorough": 200}, "adapted_mass_matrices": {"quick": 20, "thorough": 200},
+          "low_divergence_threshold_operators": {"quick": 20, "thorough": 200}, "targets": 6}
 
 TARGETS = ["gaussian", "correlated", "gamma-exp", "beta-sigmoid", "hierarchical", "phylo-unrooted", "phylo-time-ratio"]
 IDENT = ["reversal", "reversal", "volume", "order", "hastings", "hastings"]
@@ -200,6 +201,22 @@ def run_case(case):
                 qc = getq()
                 C["reversals"] += 1
                 C["chained_reversals"] = C.get("chained_reversals", 0) + 1
+                # the same integrator object proposes twice from the same point (the first proposal was rejected) while another block of
+                # the target moved in between: the second trajectory is the one a fresh integrator computes on the new target
+                integ2 = LeapfrogIntegrator(None, L, eps)
+                setq(q0)
+                integ2(joint, params, p0.clone(), Minv)
+                setq(q0)
+                dic["loc"].tensor = dic["loc"].tensor - 1.3
+                pd_ = integ2(joint, params, p0.clone(), Minv).detach().clone()
+                qd_ = getq()
+                setq(q0)
+                pe_ = LeapfrogIntegrator(None, L, eps)(joint, params, p0.clone(), Minv).detach().clone()
+                qe_ = getq()
+                C["same_start_after_target_change"] = C.get("same_start_after_target_change", 0) + 1
+                err3 = max(float((qd_ - qe_).abs().max()), float((pd_ - pe_).abs().max()))
+                if np.isfinite(err3) and err3 > 1e-10 * (1.0 + float(qe_.abs().max()) + float(pe_.abs().max())):
+                    V.append(tt.viol("C16:trajectory-depends-on-integrator-history", "a second trajectory from the same start, after the target changed, differs from the one a new integrator computes (by %.3g; eps=%.4g, L=%d, dim=%d)" % (err3, eps, L, dim), **detail))
                 err2 = max(float((qc - qa).abs().max()), float((pc + pa).abs().max()))
                 scale2 = 1.0 + float(qa.abs().max()) + float(pa.abs().max()) + float(qb.abs().max()) + float(pb.abs().max())
                 if np.isfinite(err2) and err2 > 1e-9 * scale2 * max(1.0, L / 5.0):
@@ -276,7 +293,27 @@ def run_hastings(case, dic, joint, params, pids, M, eps, L, V, C, detail):
     integ = LeapfrogIntegrator("integ", L, eps * (0.31 if case.get("late_step_size") else 1.0))
     integ.step_size = eps
     mm = Parameter("mass", M.clone())
-    op = HMCOperator("hmc", joint, params, integ, mm, disable_adaptation=True)
+    kw = {}
+    low_threshold = case["seed"] % 4 == 1
+    if low_threshold:
+        kw["divergence_threshold"] = 1e-9  # documented option: energy errors above it are *reported*; the move is still a proposal
+        C["low_divergence_threshold_operators"] = C.get("low_divergence_threshold_operators", 0) + 1
+    op = HMCOperator("hmc", joint, params, integ, mm, disable_adaptation=True, **kw)
+    if case["seed"] % 4 == 2 and not case.get("restored_mass"):
+        # a mass-matrix adaptor rewrites the operator's mass matrix between moves: the inverse the integrator gets has to follow
+        from torchtree.inference.hmc.adaptation import MassMatrixAdaptor
+
+        ad = MassMatrixAdaptor("ad.mass", params, mm, update_frequency=2)
+        arng = np.random.default_rng(case["seed"])
+        keep = [p.tensor.detach().clone() for p in params]
+        for it in range(12):
+            for p in params:
+                p.tensor = p.tensor.detach() + torch.tensor(arng.normal(0, 0.5, tuple(p.tensor.shape)))
+            ad.learn(torch.tensor(0.7), it + 1, True)
+        for p, t in zip(params, keep):
+            p.tensor = t
+        M = mm.tensor.detach().clone()
+        C["adapted_mass_matrices"] = C.get("adapted_mass_matrices", 0) + 1
     rec = {}
     ham = op._hamiltonian
     orig_sample = ham.sample_momentum
@@ -314,9 +351,20 @@ def run_hastings(case, dic, joint, params, pids, M, eps, L, V, C, detail):
             before = [p.tensor.detach().clone() for p in params]
             with torch.no_grad():
                 lj0 = float(joint())
-            hr = op.step()
+            rec.pop("p1", None)
+            import contextlib
+            import io
+
+            with contextlib.redirect_stdout(io.StringIO()):
+                hr = op.step()
             C["hastings_terms"] += 1
             if torch.isinf(hr):
+                if "p1" in rec and bool(torch.isfinite(rec["p1"]).all()):
+                    inv = rec["inv"]
+                    K = lambda p: float(0.5 * (p @ (inv * p if inv.dim() == 1 else inv @ p)))
+                    V.append(tt.viol("C16:hastings-term:infinite-for-a-completed-trajectory", "HMCOperator.step() returned an infinite Hastings term although the trajectory completed (divergence threshold %s); the change in kinetic energy is %.6g" % (
+                        kw.get("divergence_threshold", "default"), K(rec["p0"]) - K(rec["p1"])), **detail))
+                    break
                 op.reject()
                 continue
             inv = rec["inv"]
